@@ -100,7 +100,8 @@ def _extract_errors_params(kwds):
     )
 
 def _extract_manager_params(kwds):
-    manager_params = kwds.pop("manager_params", {})
+    # a copy: 'timeout' / 'raise_mode' are stored below and by the callers, the dictionary belongs to the user
+    manager_params = dict(kwds.pop("manager_params", {}))
 
     # To maintain backward compatibility
     if 'timeout' not in manager_params and 'timeout' in kwds:
